@@ -18,6 +18,7 @@ EXPLANATION = (
     'over all children in order and reads the category from node.cat.  That the eleven decoded outputs are equal for '
     'every tree and token needs decoders and values and is not decided.'
     ' No default argument or module-level binding of the printer modules may evaluate the active language (it is set after import).'
+    ' Third round: PTB writer templates and bracket escaping (R7.7, shared with C20); the json encoder writes only into records it created (R7.8).'
 )
 TRUSTED = ['CPython ast', 'sa/pysym.py path walker', 'rule table DESIGN.md C07']
 
@@ -347,6 +348,27 @@ def r_category_spelling(repo, rep, R='R7.4'):
               'the Prolog spelling drops a feature under the test %s: distinct categories (e.g. NP[nb] and NP) are spelled alike' % locals().get('detail'))
 
 
+def r_json_fresh(repo, rep, R='R7.8'):
+    from .. import effects
+    from .c18 import tainted_params, free_tainted
+    from ..core import qualname_of
+    mod = repo.module('depccg/printer/my_json.py')
+    n = 0
+    for fn in [f for f in ast.walk(mod.tree) if isinstance(f, ast.FunctionDef)]:
+        n += 1
+        tainted = set(tainted_params(fn, False)) | free_tainted(fn)
+        muts = effects.mutations(fn, tainted)
+        w = '%s:%s %s' % (mod.rel, fn.lineno, qualname_of(fn))
+        if not muts:
+            rep.ok(R, w, '%s writes only into records it created itself' % qualname_of(fn))
+        for node, tgt, what in muts:
+            rep.violation(R, '%s:%s %s' % (mod.rel, node.lineno, qualname_of(fn)), '%s:%s:record-aliases-result:%s' % (mod.rel, qualname_of(fn), what.split('(')[0]),
+                          '%s writes `%s` into an object of the parse result (%s): the token objects are shared by all n-best trees of a sentence, '
+                          'so every tree of the batch shows what the last one wrote' % (qualname_of(fn), src(node)[:60], what))
+    if n < 2:
+        raise AnalysisError('depccg/printer/my_json.py: encoder functions not found')
+
+
 def check(repo, rep, tier):
     from ..lints import r_import_time_language
     r_import_time_language(repo, rep, 'R7.4', repo.py_files('depccg/printer'))
@@ -362,5 +384,11 @@ def check(repo, rep, tier):
     r_traversal(repo, rep)
     r_deriv_measures(repo, rep)
     r_category_spelling(repo, rep)
+    rep.rule('R7.8', 'the json encoder returns live dict structures that are serialised after all trees of a batch were encoded: the '
+                     'records it fills are its own copies, never a token / tree object of the result (shared by the n-best trees of a sentence)')
+    r_json_fresh(repo, rep)
+    rep.rule('R7.7', 'the PTB encoder writes "(cat word)" / "(cat child ..)" and replaces round brackets inside words (shared with C20): every token decodes')
+    from .c20 import r_ptb
+    r_ptb(repo, rep, writer_only=True, RT='R7.7', RE='R7.7')
     from .c15 import r_ids
     r_ids(repo, rep, 'R7.6')
